@@ -32,10 +32,11 @@
 //!             ("stream:after_wake" does not block: only the return follows) or to the end of its call;
 //!             turns of finished threads are skipped; afterwards unfinished threads are completed,
 //!             streams in index order, then the driver.
-//! result:  ok keys=<0|1,..> d1=<r> woken=<0|1> s1=<r,..> d2=<r> s2=<r,..> s3=<r,..> d4=<r> d3=<r> close=<codes|->
+//! result:  ok keys=<0|1,..> d1=<r> woken=<0|1> s1=<r,..> d2=<r> d2s=<r> s2=<r,..> s3=<r,..> d4=<r> d3=<r> close=<codes|->
 //!   keys = per task: every handle it owns (both halves after split) has the DRIVER's SharedState;
 //!   d1 = the last scheduled driver poll, woken = the flag of the waker passed to THAT poll, s1 = the scheduled
-//!   stream calls (- = the call returns nothing); then sequentially: d2 = driver polled again, the transport is
+//!   stream calls (- = the call returns nothing); then sequentially: d2 = driver polled again, d2s = the driver calls
+//!   shutdown(1) (the transport still takes writes unless the case lost it), the transport is
 //!   lost (code 999 unless the case already lost it), s2 = every stream handle that still exists reads (SendRequest:
 //!   send_request again), s3 = ... writes (send_data), d4 = the driver calls shutdown(0) (the GOAWAY write fails),
 //!   d3 = driver polled a last time, close = codes of all OpenStreams::close calls before the handles are dropped.
@@ -578,11 +579,17 @@ fn build(c: &Case) -> (Shared, Driver, Vec<Handle>, Vec<Option<u64>>) {
         let mut handles = Vec::new();
         let mut ids = Vec::new();
         let mut next_id = 0u64;
-        // SimOpener is not Clone, so there is ONE SendRequest: it goes to the (single) rq / dr task, if any
-        assert!(c.serr.iter().filter(|k| *k == "rq" || *k == "dr").count() <= 1, "driver: at most one rq/dr task");
+        // rq tasks get clones of the SendRequest; a dr task gets the original and must then be the only holder
+        let has_dr = c.serr.iter().any(|k| k == "dr");
+        assert!(!(has_dr && c.serr.iter().any(|k| k == "rq")), "driver: dr and rq do not combine");
+        assert!(c.serr.iter().filter(|k| *k == "dr").count() <= 1, "driver: one dr task");
         for kind in c.serr.iter() {
             match kind.as_str() {
-                "rq" | "dr" => {
+                "rq" => {
+                    handles.push(Handle::SendReq(Some(send.clone())));
+                    ids.push(None);
+                }
+                "dr" => {
                     handles.push(Handle::SendReq(None));
                     ids.push(None);
                 }
@@ -604,7 +611,7 @@ fn build(c: &Case) -> (Shared, Driver, Vec<Handle>, Vec<Option<u64>>) {
         }
         let mut keep = Some(send);
         for (h, kind) in handles.iter_mut().zip(c.serr.iter()) {
-            if kind == "rq" || kind == "dr" {
+            if kind == "dr" {
                 *h = Handle::SendReq(keep.take());
             }
         }
@@ -761,6 +768,8 @@ fn run_case(c: &Case, pool: &mut Pool) -> String {
     // was the waker of the last scheduled poll woken (read now: every scheduled task has finished)
     let woken = dflag.0.load(Ordering::SeqCst);
     let (d2, _) = poll_driver(&mut driver, c.full);
+    // shutdown() while the transport still works (unless the case lost it): a failed connection reports its error
+    let d2s = driver_shutdown(&mut driver, 1);
     if c.loss == "-" {
         ev(&w, "X999");
     }
@@ -786,12 +795,13 @@ fn run_case(c: &Case, pool: &mut Pool) -> String {
             .collect()
     };
     let out = format!(
-        "ok keys={} d1={} woken={} s1={} d2={} s2={} s3={} d4={} d3={} close={}",
+        "ok keys={} d1={} woken={} s1={} d2={} d2s={} s2={} s3={} d4={} d3={} close={}",
         keys.join(","),
         d1,
         woken as u8,
         s1.join(","),
         d2,
+        d2s,
         s2.join(","),
         s3.join(","),
         d4,
